@@ -3,6 +3,7 @@
 They decide nothing about the model: the theorems do that. They turn a broken tie into a concrete replay."""
 
 from spec import check_sequential
+from cases import take_params
 
 PULL_OPS = ("next", "nextv", "chunk", "bufnext", "foreach", "enumforeach", "fold", "values", "idsvalues")
 LOOP_OPS = ("foreach", "enumforeach", "fold", "values", "idsvalues")
@@ -115,8 +116,10 @@ class Trace:
         elif oi.op in ("chunk", "bufnext") and r and r[0] == "chunk":
             b, a, l = int(r[1]), int(r[2]), int(r[3])
             vals = [int(x) for x in r[4:]]
-            for k in range(max(a, len(vals))):
-                out.append((b + k, vals[k] if k < len(vals) else None, k < len(vals)))
+            sk, _ = take_params(oi.toks[-1], a)
+            for k in range(max(a, sk + len(vals))):
+                got = sk <= k < sk + len(vals)
+                out.append((b + k, vals[k - sk] if got else None, got))
         elif oi.op in LOOP_OPS:
             for (idx, val, _) in oi.visits:
                 out.append((idx, val, True))
@@ -352,13 +355,13 @@ def check_C03(tr):
                 bad.append("chunk of %d elements for chunk size %d (line %d)" % (a, n, oi.ret))
             if a < n and (not c.is_iter() or c.fused()) and b + a != L:
                 bad.append("short chunk [%d,%d) does not end at the source end %d (line %d)" % (b, b + a, L, oi.ret))
-        if len(vals) + l != a:
-            bad.append("announced length %d but %d consumed and %d left (line %d)" % (a, len(vals), l, oi.ret))
         want = oi.toks[-1]
-        k = a if want == "all" else min(int(want), a)
-        if len(vals) != k:
+        sk, k = take_params(want, a)
+        if k + l != a:
+            bad.append("announced length %d but %d consumed and %d left (line %d)" % (a, k, l, oi.ret))
+        if len(vals) != k - sk:
             bad.append("asked to consume %s of announced %d, got %d elements (line %d)" % (want, a, len(vals), oi.ret))
-        for j, v in enumerate(vals):
+        for j, v in enumerate(vals, sk):
             if b + j < L and c.val_at(b + j) != v:
                 bad.append("chunk element %d at position %d is %d, source has %s (line %d)" % (j, b + j, v, c.val_at(b + j), oi.ret))
             if b + j >= L:
